@@ -420,3 +420,28 @@ def the_timer_counts_whole_milliseconds_of_the_loop_clock(t, now):
     ms = t._monotonic_ms()
     assert isinstance(ms, int)
     assert ms <= now * 1000 < ms + 1
+
+
+# ------------------------------------------------------------------ the shape of received secure bodies
+# The lemmas above take TimerNotify / SecureWrapper bodies whose fields have their fixed sizes (NOTIFY, WRAPPER):
+# the counter blocks fed to AES are built from them and a block of another size makes the cipher raise. The
+# parser that builds the bodies from a datagram owes exactly that.
+
+from xknx.exceptions import CouldNotParseKNXIP as _CouldNotParseKNXIP  # noqa: E402
+
+
+@lemma("C30", family=[dict(B=TimerNotify), dict(B=SecureWrapper)], params=dict(raw=Bytes(max_len=80)))
+def a_parsed_secure_body_has_its_fixed_field_sizes(B, raw):
+    """TimerNotify.from_knx / SecureWrapper.from_knx on any octets (0 octets included): CouldNotParseKNXIP, or a
+    body with a 6-octet serial number, 2-octet tag and 16-octet MAC (and a 6-octet sequence field / 48-bit
+    timer value) - the sizes the receive path builds its AES blocks from."""
+    body = B()
+    try:
+        body.from_knx(raw)
+    except _CouldNotParseKNXIP:
+        return
+    assert len(body.serial_number) == 6 and len(body.message_tag) == 2 and len(body.message_authentication_code) == 16
+    if B is TimerNotify:
+        assert len(raw) == 30 and 0 <= body.timer_value <= MAX48
+    else:
+        assert len(body.sequence_information) == 6 and len(body.encrypted_data) == len(raw) - 32 and 0 <= body.secure_session_id <= 0xFFFF
